@@ -23,7 +23,7 @@ Lemma env_noninterference_v5_refuted_lemma : exists md5 c e1 e2 det info,
   deterministic_cfg c /\ w_encrypt_v5 c = true /\
   env_inputs md5 c e1 det info <> env_inputs md5 c e2 det info.
 Proof.
-  exists (fun x => x), {| w_id := IdStatic; w_iv := IvZero; w_encrypt_v5 := true; w_encrypted := true |},
+  exists (fun x => x), {| w_id := IdStatic; w_iv := EIvZero; w_encrypt_v5 := true; w_encrypted := true |},
     {| e_time := 0; e_outname := []; e_rand := fun _ => 0 |},
     {| e_time := 0; e_outname := []; e_rand := fun _ => 1 |}, [], [].
   split.
